@@ -66,6 +66,10 @@ def check_case(col, cfgname, t, seed):
     lays, par, gid = cfg["lays"], cfg["par"], cfg["gain"]
     nxseg, ovl, method = par["nxseg"], par["ovl"], par["method"]
     pov = ovl / nxseg
+    if method == "per" and ovl not in (0, nxseg // 2) and gid != 0:
+        # an overlap fraction whose product with the segment length is not an integer (ovl + 0.6 samples): the overlap is the
+        # integer part in the single-setup estimate, and the merged estimate has to use the same one
+        pov = (ovl + 0.6) / nxseg
     nch = max(max(l["chan"]) for l in lays)
     n = nxseg * 8 + 7
     X = recording(nch, n, seed)
